@@ -78,7 +78,18 @@ def run(res, tier, seed):
     def batch(hids, blen, unm, forms):
         lines, runs = [], []
         for hid in hids:
-            r = H.run_history(nap, seed, hid, blen, unm, forms=forms)
+            # every 5th history runs with the two warning-suppression flags of nap_config SET: they are documented to silence warnings only (seed C04-7: the
+            # sorting flag also skipped the sort); well-formedness and the model comparison must be the same as without them
+            flags = hid % 5 == 3
+            old_flags = (nap.nap_config.suppress_time_index_sorting_warnings, nap.nap_config.suppress_conversion_warnings)
+            if flags:
+                nap.nap_config.suppress_time_index_sorting_warnings = True
+                nap.nap_config.suppress_conversion_warnings = True
+                res.count("history_under_suppress_warning_flags")
+            try:
+                r = H.run_history(nap, seed, hid, blen, unm, forms=forms)
+            finally:
+                nap.nap_config.suppress_time_index_sorting_warnings, nap.nap_config.suppress_conversion_warnings = old_flags
             runs.append(r)
             lines.append("history\t" + "\t".join(r["codes"]))
             for c in r["codes"]:
